@@ -701,8 +701,10 @@ def _process_dep_declarations(content: bytes, type: RenderType) -> Tuple[bytes, 
     return (content, final_script_tags.encode("utf-8"), final_css_tags.encode("utf-8"))
 
 
-href_pattern = re.compile(r'href="([^"]+)"')
-src_pattern = re.compile(r'src="([^"]+)"')
+# NOTE: The attribute value may be in double or single quotes (e.g. `<script src='path/to/script.js'>`),
+#       and e.g. `data-src="..."` is a different attribute.
+href_pattern = re.compile(r"""(?<![\w-])href=(?:"([^"]+)"|'([^']+)')""")
+src_pattern = re.compile(r"""(?<![\w-])src=(?:"([^"]+)"|'([^']+)')""")
 
 
 # Detect duplicates by URLs, extract URLs, and sort by URLs
@@ -723,7 +725,7 @@ def _postprocess_media_tags(
             attr_pattern = href_pattern
 
         maybe_url_match = attr_pattern.search(tag.strip())
-        maybe_url = maybe_url_match.group(1) if maybe_url_match else None
+        maybe_url = (maybe_url_match.group(1) or maybe_url_match.group(2)) if maybe_url_match else None
 
         if not is_nonempty_str(maybe_url):
             raise RuntimeError(
